@@ -49,6 +49,10 @@ pub struct Case {
     /// cell sizes of the glyph pool
     pub glyphs: Vec<(usize, usize)>,
     pub steps: Vec<Step>,
+    /// drive the same history through `Terminal::run_render` (Clear = more than 32 pending frames,
+    /// which makes run_render drop them and force a clear; Recreate = a Resize event)
+    #[serde(default)]
+    pub via_run_render: bool,
 }
 
 // ---------------------------------------------------------------------------
@@ -114,6 +118,21 @@ struct ModelTerm {
     glyph_at: HashMap<(usize, usize), ImgId>,
     next_unknown: ImgId,
     counts: HashMap<&'static str, u64>,
+    /// scripted events for run_render sessions
+    events: std::collections::VecDeque<TerminalEvent>,
+    /// what frames_pending reports
+    pending: usize,
+    /// the terminal is scrambled when the pending frames are dropped / the resize arrives
+    scramble_on_drop: Option<u64>,
+    scramble_on_resize: Option<u64>,
+    /// frames_drop was called since the flag was last reset
+    dropped: bool,
+    /// run_render sessions: the frame that was just rendered and still has to be judged
+    to_judge: Option<(usize, Expected)>,
+    tainted: bool,
+    failure: Option<Fail>,
+    decided: u64,
+    notes: Vec<String>,
 }
 
 impl ModelTerm {
@@ -130,6 +149,16 @@ impl ModelTerm {
             glyph_at: HashMap::new(),
             next_unknown: 1_000_000,
             counts: HashMap::new(),
+            events: Default::default(),
+            pending: 0,
+            scramble_on_drop: None,
+            scramble_on_resize: None,
+            dropped: false,
+            to_judge: None,
+            tainted: false,
+            failure: None,
+            decided: 0,
+            notes: Vec::new(),
         }
     }
 
@@ -152,6 +181,37 @@ impl ModelTerm {
 
     fn count(&mut self, what: &'static str) {
         *self.counts.entry(what).or_insert(0) += 1;
+    }
+
+    /// run_render sessions: compare the screen with the frame that was rendered last; must run
+    /// before anything else (dropped frames, forced clear, next frame) touches the terminal
+    fn judge(&mut self) {
+        let Some((si, expected)) = self.to_judge.take() else { return };
+        if self.failure.is_some() {
+            return;
+        }
+        if let Some(why) = expected.conflict {
+            self.tainted = true;
+            self.notes.push(format!("nondeciding.{why}"));
+            return;
+        }
+        if self.tainted {
+            self.notes.push("nondeciding.after-conflict-frame".into());
+            return;
+        }
+        self.decided += 1;
+        let (h, w) = (self.screen.h, self.screen.w);
+        if let Some(problem) = self.screen.problems.first() {
+            self.failure = Some(Fail::new(
+                "terminal-protocol",
+                format!("run_render step {si}: while executing the frame's commands: {problem}"),
+            ));
+        } else if let Some((clause, what)) = diff(&self.screen, &expected.screen) {
+            self.failure = Some(Fail::new(
+                format!("stale:{clause}"),
+                format!("run_render step {si} ({h}x{w} terminal): after the frame {what}"),
+            ));
+        }
     }
 }
 
@@ -199,6 +259,10 @@ impl Terminal for ModelTerm {
                 let id = self.image_id(&img, None);
                 self.screen.image_erase(id, pos.map(|p| (p.row, p.col)));
             }
+            // run_render brackets every frame with synchronized output
+            TerminalCommand::DecModeSet { mode: surf_n_term::DecMode::SynchronizedOutput, .. } => {
+                self.count("cmd.sync-output");
+            }
             other => {
                 self.screen.problems.push(format!("unexpected command {other:?}"));
             }
@@ -210,7 +274,14 @@ impl Terminal for ModelTerm {
         TerminalWaker::new(|| Ok(()))
     }
     fn poll(&mut self, _timeout: Option<std::time::Duration>) -> Result<Option<TerminalEvent>, Error> {
-        Ok(None)
+        self.judge();
+        let event = self.events.pop_front();
+        if let Some(TerminalEvent::Resize(_)) = event {
+            if let Some(seed) = self.scramble_on_resize.take() {
+                scramble(&mut self.screen, seed);
+            }
+        }
+        Ok(event)
     }
     fn dyn_ref(&mut self) -> &mut dyn Terminal {
         self
@@ -222,9 +293,16 @@ impl Terminal for ModelTerm {
         Ok(Position::origin())
     }
     fn frames_pending(&self) -> usize {
-        0
+        self.pending
     }
-    fn frames_drop(&mut self) {}
+    fn frames_drop(&mut self) {
+        self.judge();
+        self.pending = 0;
+        self.dropped = true;
+        if let Some(seed) = self.scramble_on_drop.take() {
+            scramble(&mut self.screen, seed);
+        }
+    }
     fn capabilities(&self) -> &TerminalCaps {
         &self.caps
     }
@@ -423,6 +501,10 @@ impl World {
 
 fn apply_draws(world: &World, renderer: &mut TerminalRenderer, draws: &[Draw]) {
     let mut surf = renderer.surface();
+    apply_draws_surface(world, &mut surf, draws)
+}
+
+fn apply_draws_surface(world: &World, surf: &mut impl SurfaceMut<Item = Cell>, draws: &[Draw]) {
     for d in draws {
         if let Some((r, c, cells)) = world.cell(d) {
             for (i, cell) in cells.into_iter().enumerate() {
@@ -442,6 +524,15 @@ fn snapshot(
     glyph_at: &mut HashMap<(usize, usize), ImgId>,
 ) -> Vec<SCell> {
     let surf = renderer.surface();
+    snapshot_surface(world, &surf, glyph_keys, glyph_at)
+}
+
+fn snapshot_surface(
+    world: &World,
+    surf: &impl Surface<Item = Cell>,
+    glyph_keys: &mut Vec<(usize, Face)>,
+    glyph_at: &mut HashMap<(usize, usize), ImgId>,
+) -> Vec<SCell> {
     let ppc = Size::new(world.ppc.0, world.ppc.1);
     let mut out = Vec::with_capacity(surf.height() * surf.width());
     glyph_at.clear();
@@ -558,7 +649,7 @@ impl Prop for C01 {
             };
             steps.push(step);
         }
-        Case { h, w, ppc, images, glyphs, steps }
+        Case { h, w, ppc, images, glyphs, steps, via_run_render: rng.chance(1, 4) }
     }
 
     fn check(case: &Case, ctx: &mut Ctx) -> Result<(), Fail> {
@@ -588,6 +679,9 @@ impl Prop for C01 {
             })
             .collect();
         let world = World { pool: pool.clone(), glyphs, ppc: case.ppc };
+        if case.via_run_render {
+            return check_via_run_render(case, &world, pool, ctx);
+        }
         let mut term = ModelTerm::new(h, w, case.ppc, pool.clone());
         let mut renderer = TerminalRenderer::new(&mut term, false).map_err(|e| Fail::new("renderer-new", format!("{e:?}")))?;
         let mut glyph_keys: Vec<(usize, Face)> = Vec::new();
@@ -772,4 +866,103 @@ fn diff_scratch(actual: &Screen, expected: &Screen) -> Option<(String, String)> 
         return Some(("image-placements".into(), format!("placements at {pa:?} vs {pe:?}")));
     }
     None
+}
+
+
+// ---------------------------------------------------------------------------
+// the same histories through Terminal::run_render
+
+#[derive(Debug)]
+struct Stop(Option<Fail>);
+impl From<Error> for Stop {
+    fn from(e: Error) -> Self {
+        Stop(Some(Fail::new("run_render:error", format!("{e:?}"))))
+    }
+}
+
+fn check_via_run_render(case: &Case, world: &World, pool: Vec<Image>, ctx: &mut Ctx) -> Result<(), Fail> {
+    use surf_n_term::TerminalAction;
+    let (h, w) = (case.h, case.w);
+    let mut term = ModelTerm::new(h, w, case.ppc, pool);
+    let mut glyph_keys: Vec<(usize, Face)> = Vec::new();
+    let mut next = 0usize;
+    let mut feats: Vec<String> = Vec::new();
+    let steps = &case.steps;
+
+    let result: Result<(), Stop> = term.run_render(|term, event, mut surf| {
+        // the frame rendered after the previous invocation is judged by the terminal model itself,
+        // at the first thing that happens after it (poll / frames_drop), see ModelTerm::judge
+        term.judge();
+        if let Some(fail) = term.failure.take() {
+            return Err(Stop(Some(fail)));
+        }
+        if matches!(event, Some(TerminalEvent::Resize(_))) {
+            // run_render cleared and re-created the renderer
+            term.tainted = false;
+            feats.push("run_render.resize".into());
+        }
+        if term.dropped {
+            // pending frames were dropped and a clear was forced: the next frame repaints everything
+            term.dropped = false;
+            term.tainted = false;
+            feats.push("run_render.forced-clear-after-drop".into());
+        }
+        loop {
+            let Some(step) = steps.get(next) else {
+                return Ok(TerminalAction::Quit(()));
+            };
+            let si = next;
+            next += 1;
+            match step {
+                Step::Clear { scramble: seed } => {
+                    // too many pending frames: run_render drops them and forces a clear before the
+                    // next frame it renders
+                    term.pending = 40;
+                    term.scramble_on_drop = Some(*seed);
+                    feats.push("run_render.frames-pending-over-limit".into());
+                }
+                Step::Recreate { scramble: seed } => {
+                    term.scramble_on_resize = Some(*seed);
+                    let size = term.size;
+                    term.events.push_back(TerminalEvent::Resize(size));
+                    // nothing is drawn in this invocation
+                    return Ok(TerminalAction::WaitNoFrame);
+                }
+                Step::NoFrame(draws) => {
+                    apply_draws_surface(world, &mut surf, draws);
+                    feats.push("step.noframe".into());
+                    return Ok(TerminalAction::WaitNoFrame);
+                }
+                Step::Frame(draws) => {
+                    apply_draws_surface(world, &mut surf, draws);
+                    let mut glyph_at = HashMap::new();
+                    let cells = snapshot_surface(world, &surf, &mut glyph_keys, &mut glyph_at);
+                    let expected = paint(h, w, &cells);
+                    term.glyph_at = glyph_at;
+                    term.screen.problems.clear();
+                    term.to_judge = Some((si, expected));
+                    return Ok(TerminalAction::Wait);
+                }
+            }
+        }
+    });
+    match result {
+        Err(Stop(Some(fail))) => return Err(fail),
+        Err(Stop(None)) | Ok(()) => {}
+    }
+    if let Some(fail) = term.failure.take() {
+        return Err(fail);
+    }
+    ctx.feat("run_render.sessions");
+    ctx.feat_n("run_render.frames-decided", term.decided);
+    for f in term.notes.drain(..) {
+        ctx.feat(&f);
+    }
+    for f in feats {
+        ctx.feat(&f);
+    }
+    for (k, v) in term.counts.iter() {
+        ctx.feat_n(k, *v);
+    }
+    Ok(())
 }
